@@ -244,7 +244,7 @@ func (s *c03State) confirm(toks []model.Tok, ast *model.Node, tight, base, want 
 }
 
 func checkC03(r *harness.Run) harness.Coverage {
-	r.Rule = "(a) every grammatical token sequence up to the blind length bound over one spelling per token kind; (b) every sentence of the operator fragment (all operators over single-letter leaves) up to the structural weight bound; (c) every postfix chain (dot, index, slice, [*], .*, [], filters, with | and || as terminators) up to a larger weight bound. For each: three whitespace styles (same AST render, intended token sequence), every insertion of one parenthesis pair around any AST-node span and all of them at once, every deletion of an existing pair — a variant is meaning-preserving iff the canonical parser P gives the same AST, and then the implementation must give the same AST for both; the implementation AST is compared with the canonical AST and a difference must be confirmed by a distinguishing document before it is reported. Non-trivial = sentence with at least one operator pair; distinct by token sequence"
+	r.Rule = "(a) every grammatical token sequence up to the blind length bound over one spelling per token kind; (b) every sentence of the operator fragment (all operators over single-letter leaves) up to the structural weight bound; (c) every postfix chain (dot, index, slice, [*], .*, [], filters, with | and || as terminators) up to a larger weight bound, and every sequence of up to 4 (thorough 5) postfix steps after a, @ and *. For each: three whitespace styles (same AST render, intended token sequence), every insertion of one parenthesis pair around any AST-node span and all of them at once, every deletion of an existing pair — a variant is meaning-preserving iff the canonical parser P gives the same AST, and then the implementation must give the same AST for both; the implementation AST is compared with the canonical AST and a difference must be confirmed by a distinguishing document before it is reported. Non-trivial = sentence with at least one operator pair; distinct by token sequence"
 	r.Assumptions = []string{"canonical precedence data: model/parser.go (published JMESPath binding powers), cross-checked with G and grounded on the compliance corpus", "equal parse implies equal result on every document (the interpreter is a function of the AST)", "de-facto irregularities G10 (X.*.Y.Z, filter after filter) are part of the canonical rules"}
 	blindN, opsW := 4, 5
 	if r.Thorough() {
@@ -302,6 +302,35 @@ func checkC03(r *harness.Run) harness.Coverage {
 		harness.Parallel(len(ss), func(wk, i int) { s.one(gch.Tokens(ss[i])) })
 		doneChain = w
 	}
+	// pure postfix chains by LENGTH rather than weight: every sequence of up to 4 (thorough 5) steps from
+	// {.a, .*, [0], [*], [], [?a], [1:], |a} after each of the bases a, @, * — e.g. a.*.*.a.a, a[?a].*.a[?a],
+	// a[?a][0]: the sentences where one projection's scope ends inside another's lie at weights 8-10
+	steps := [][]model.Tok{univ.Lx(".a"), univ.Lx(".*"), univ.Lx("[0]"), univ.Lx("[*]"), univ.Lx("[]"), univ.Lx("[?a]"), univ.Lx("[1:]"), univ.Lx("|a")}
+	maxSteps := 4
+	if r.Thorough() {
+		maxSteps = 5
+	}
+	var chains [][]model.Tok
+	for _, base := range [][]model.Tok{univ.Lx("a"), univ.Lx("@"), univ.Lx("*")} {
+		var rec2 func(cur []model.Tok, k int)
+		rec2 = func(cur []model.Tok, k int) {
+			if k > 0 {
+				chains = append(chains, append([]model.Tok{}, cur...))
+			}
+			if k == maxSteps {
+				return
+			}
+			for _, st := range steps {
+				rec2(append(append([]model.Tok{}, cur...), st...), k+1)
+			}
+		}
+		rec2(base, 0)
+	}
+	before := s.sentences
+	if !r.OverBudget() {
+		harness.Parallel(len(chains), func(wk, i int) { s.one(chains[i]) })
+	}
+	r.Note("postfix_chains_by_length", s.sentences-before)
 	r.Evaluations = s.sentences + s.variants + s.styleChecks
 	r.Traces = s.sentences + s.preserved + s.styleChecks
 	r.States = s.sentences
